@@ -68,6 +68,7 @@ class FnInfo:
         self.line_hi = None
         self.clause_lines = {}
         self.trusted = bool(spec.get('trusted'))
+        self.degraded = []
 
 
 def split_key(key):
@@ -310,10 +311,16 @@ def process_fn(src, unit, key, spec, s, hp, ob, cb, add_edit, canary, disabled_r
         occ = [m.start() for m in re.finditer(re.escape(anchor), text[ob:cb + 1])]
         occ = [ob + o for o in occ if src.mask[ob + o]]
         nth = ins.get('nth', 0)
+        lost = None
         if ins.get('unique', True) and 'nth' not in ins and len(occ) != 1:
-            raise AnchorLost('%s: anchor `%s` found %d times' % (key, anchor, len(occ)))
-        if nth >= len(occ):
-            raise AnchorLost('%s: anchor `%s` #%d not found' % (key, anchor, nth))
+            lost = '%s: anchor `%s` found %d times' % (key, anchor, len(occ))
+        elif nth >= len(occ):
+            lost = '%s: anchor `%s` #%d not found' % (key, anchor, nth)
+        if lost:
+            # a proof hint whose anchor is gone is skipped: if the function still verifies, fine; if it does not,
+            # the runner reports the function as undecided (never as a violation)
+            info.degraded.append(lost)
+            continue
         p = occ[nth]
         if ins.get('where', 'before') == 'before':
             add_edit(p, p, ins['text'] + ' ', prio=3)
